@@ -125,6 +125,8 @@ pub struct Gate {
     pub read_waiting: bool,
     pub read_done: bool,
     pub payload_mode: PayloadMode,
+    /// not opened by the simulator before the closing phase
+    pub held: bool,
 }
 
 #[derive(Clone, Debug, PartialEq, Eq)]
@@ -242,6 +244,7 @@ pub struct World {
     pub auto_open: Cell<bool>,
     /// per-mille probability that a gate completes without parking
     pub p_immediate: Cell<u32>,
+    pub p_hold: Cell<u32>,
     /// weights for outcome ok / neg / err at immediate completion
     pub w_outcome: Cell<[u32; 3]>,
     /// weights for payload mode eager / lazy / abandon
@@ -264,6 +267,7 @@ impl World {
             finish_waker: RefCell::new(None),
             auto_open: Cell::new(false),
             p_immediate: Cell::new(0),
+            p_hold: Cell::new(0),
             w_outcome: Cell::new([1, 0, 0]),
             w_payload: Cell::new([1, 0, 0]),
             conn_done: RefCell::new(Vec::new()),
@@ -338,6 +342,10 @@ impl World {
             };
             (imm, mode)
         };
+        let held = immediate.is_none()
+            && matches!(kind, GateKind::Publish | GateKind::Proto)
+            && self.p_hold.get() > 0
+            && self.ch.borrow_mut().chance(self.p_hold.get(), 1000);
         self.gates.borrow_mut().push(Gate {
             id,
             conn,
@@ -352,6 +360,7 @@ impl World {
             read_waiting: false,
             read_done: false,
             payload_mode: mode,
+            held,
         });
         self.ev(Ev::GateEnter { gate: id, conn, kind, desc, immediate: immediate.is_some() });
         (id, immediate)
